@@ -14,6 +14,7 @@
 import UpdaterModel.Driver.Proto
 import UpdaterModel.Driver.Judge
 import UpdaterModel.Driver.CodecDriver
+import UpdaterModel.Driver.AbiDump
 
 open Updater Updater.Proto
 
@@ -144,6 +145,7 @@ def main (args : List String) : IO UInt32 := do
     IO.println s!"STATS hists={st.hists} steps={st.steps} diffs={st.diffs} bads={st.bads} jfails={st.jfails}"
     return 0
   | ["codec"] => CodecDriver.main stdin
+  | ["abi"] => AbiDump.main
   | _ =>
-    IO.eprintln "usage: model replay|codec"
+    IO.eprintln "usage: model replay|codec|abi"
     return 2
